@@ -87,6 +87,12 @@ class MountFS(FS):
             given ``path``.
 
         """
+        # a mounted filesystem only sees the remainder of the normalised path:
+        # refuse invalid characters here, as `FS.validatepath` does, before
+        # they can be normalised away
+        invalid_chars = self._meta.get("invalid_path_chars")
+        if invalid_chars and set(path).intersection(invalid_chars):  # type: ignore
+            raise errors.InvalidCharsInPath(path)
         _path = forcedir(abspath(normpath(path)))
         is_mounted = _path.startswith
 
@@ -188,10 +194,9 @@ class MountFS(FS):
     def removedir(self, path):
         # type: (Text) -> None
         self.check()
-        path = normpath(path)
-        if path in ("", "/"):
-            raise errors.RemoveRootError(path)
         fs, _path = self._delegate(path)
+        if normpath(path) in ("", "/"):
+            raise errors.RemoveRootError(path)
         return fs.removedir(_path)
 
     def readbytes(self, path):
